@@ -175,7 +175,7 @@ func genBoolInput(r *rand.Rand) (subj, clip Paths, clipNil bool) {
 func driveBool(r *rand.Rand, w *writer, n int, chk []string) {
 	for i := 0; i < n; i++ {
 		subj, clip, cn := genBoolInput(r)
-		e := &BoolEv{Ev: "BooleanOp", Chk: chk, Api: boolApis[r.Intn(len(boolApis))],
+		e := &BoolEv{Ev: "BooleanOp", Chk: chkFor(chk...), Api: boolApis[r.Intn(len(boolApis))],
 			Ct: 1 + r.Intn(4), Fr: r.Intn(4), Subj: subj, Clip: clip, ClipNil: cn, Pc: true}
 		if has(chk, "C02") {
 			e.Pc, e.Rev = r.Intn(2) == 0, r.Intn(3) == 0
